@@ -97,7 +97,8 @@ def gen_cases(rng, tier):
     sign = SIGNS[(i // 3) % 4]
     if i % 5 < 3:
       cls = LEAF_CLASSES[(i // 5) % len(LEAF_CLASSES)]
-      L = tg.gen_tree_leaf(rng, cls, lg.pick(rng, lg.LENGTHS))
+      # the features whose combinations matter (thermal / storage: flow direction x efficiency) are cycled, not drawn
+      L = tg.gen_tree_leaf(rng, cls, lg.pick(rng, lg.LENGTHS), variant=(i % 5) + 3 * ((i // 5) // len(LEAF_CLASSES)))
       L['id'] = 'd'
       T = {'kind': 'leaf', 'id': 'd', 'leaf': L}
     elif i % 5 == 3:
@@ -115,6 +116,12 @@ def gen_cases(rng, tier):
       kind = 'vector'
     R, n = tg.rows(T), tg.length(T)
     S = tg.gen_matrix(rng, T)
+    if T['kind'] == 'leaf' and T['leaf']['cls'] in ('TDevice', 'SDevice') and i % 2 == 0:
+      # a two-way device is observed at a flow with entries of BOTH signs (the price must reach every slot whatever its direction)
+      two = [j for j, (lo, hi) in enumerate(T['leaf']['bounds']) if lo < 0 < hi]
+      for k, j in enumerate(two):
+        lo, hi = T['leaf']['bounds'][j]
+        S[0][j] = lo / 2 if k % 2 == 0 else hi / 2
     hess = (not slow_hess(T)) or rng.random() < (0.15 if tier != 'thorough' else 0.05)
     price = gen_price(rng, R, n, kind, sign)
     if i % 20 == 19 and price[0] == 'vector' and len(set(price[1])) < len(price[1]):
